@@ -543,71 +543,75 @@ namespace Dune
   }
 
 
-  template <int k>
-  inline bigunsignedint<k> operator+ (const bigunsignedint<k>& x, std::uintmax_t y)
+  // Mixed operations with a built-in integer on either side.  The temporary is constructed from
+  // the argument with its own type, so that a negative signed argument is rejected by the
+  // constructor exactly as in bigunsignedint<k>(y) (it used to be converted to std::uintmax_t
+  // silently: bigunsignedint<128>(5) + (-1) was 2^64 + 4).
+  template <int k, class T, std::enable_if_t<std::is_convertible<T, std::uintmax_t>::value, int> = 0>
+  inline bigunsignedint<k> operator+ (const bigunsignedint<k>& x, T y)
   {
     bigunsignedint<k> temp(y);
     return x+temp;
   }
 
-  template <int k>
-  inline bigunsignedint<k> operator- (const bigunsignedint<k>& x, std::uintmax_t y)
+  template <int k, class T, std::enable_if_t<std::is_convertible<T, std::uintmax_t>::value, int> = 0>
+  inline bigunsignedint<k> operator- (const bigunsignedint<k>& x, T y)
   {
     bigunsignedint<k> temp(y);
     return x-temp;
   }
 
-  template <int k>
-  inline bigunsignedint<k> operator* (const bigunsignedint<k>& x, std::uintmax_t y)
+  template <int k, class T, std::enable_if_t<std::is_convertible<T, std::uintmax_t>::value, int> = 0>
+  inline bigunsignedint<k> operator* (const bigunsignedint<k>& x, T y)
   {
     bigunsignedint<k> temp(y);
     return x*temp;
   }
 
-  template <int k>
-  inline bigunsignedint<k> operator/ (const bigunsignedint<k>& x, std::uintmax_t y)
+  template <int k, class T, std::enable_if_t<std::is_convertible<T, std::uintmax_t>::value, int> = 0>
+  inline bigunsignedint<k> operator/ (const bigunsignedint<k>& x, T y)
   {
     bigunsignedint<k> temp(y);
     return x/temp;
   }
 
-  template <int k>
-  inline bigunsignedint<k> operator% (const bigunsignedint<k>& x, std::uintmax_t y)
+  template <int k, class T, std::enable_if_t<std::is_convertible<T, std::uintmax_t>::value, int> = 0>
+  inline bigunsignedint<k> operator% (const bigunsignedint<k>& x, T y)
   {
     bigunsignedint<k> temp(y);
     return x%temp;
   }
 
-  template <int k>
-  inline bigunsignedint<k> operator+ (std::uintmax_t x, const bigunsignedint<k>& y)
+  template <int k, class T, std::enable_if_t<std::is_convertible<T, std::uintmax_t>::value, int> = 0>
+  inline bigunsignedint<k> operator+ (T x, const bigunsignedint<k>& y)
   {
     bigunsignedint<k> temp(x);
     return temp+y;
   }
 
-  template <int k>
-  inline bigunsignedint<k> operator- (std::uintmax_t x, const bigunsignedint<k>& y)
+  template <int k, class T, std::enable_if_t<std::is_convertible<T, std::uintmax_t>::value, int> = 0>
+  inline bigunsignedint<k> operator- (T x, const bigunsignedint<k>& y)
   {
     bigunsignedint<k> temp(x);
     return temp-y;
   }
 
-  template <int k>
-  inline bigunsignedint<k> operator* (std::uintmax_t x, const bigunsignedint<k>& y)
+  template <int k, class T, std::enable_if_t<std::is_convertible<T, std::uintmax_t>::value, int> = 0>
+  inline bigunsignedint<k> operator* (T x, const bigunsignedint<k>& y)
   {
     bigunsignedint<k> temp(x);
     return temp*y;
   }
 
-  template <int k>
-  inline bigunsignedint<k> operator/ (std::uintmax_t x, const bigunsignedint<k>& y)
+  template <int k, class T, std::enable_if_t<std::is_convertible<T, std::uintmax_t>::value, int> = 0>
+  inline bigunsignedint<k> operator/ (T x, const bigunsignedint<k>& y)
   {
     bigunsignedint<k> temp(x);
     return temp/y;
   }
 
-  template <int k>
-  inline bigunsignedint<k> operator% (std::uintmax_t x, const bigunsignedint<k>& y)
+  template <int k, class T, std::enable_if_t<std::is_convertible<T, std::uintmax_t>::value, int> = 0>
+  inline bigunsignedint<k> operator% (T x, const bigunsignedint<k>& y)
   {
     bigunsignedint<k> temp(x);
     return temp%y;
